@@ -47,7 +47,7 @@ def run_tlc(module, cfg, env=None, workers=16, timeout=600, simulate=None, depth
             dfs=False):
     """Run TLC on SPEC/<module>.tla with SPEC/<cfg>; returns TLCResult."""
     meta = tempfile.mkdtemp(prefix='tlc-', dir=SHM)
-    java = ['java', '-XX:+UseParallelGC', '-Xmx' + heap]
+    java = ['java', '-XX:+UseParallelGC', '-Xmx' + heap, '-Djava.io.tmpdir=' + meta]   # SANY unpacks its library modules there
     if dfs:
         java.append('-Dtlc2.tool.queue.IStateQueue=StateDeque')
     cmd = java + ['-cp', JAR + ':' + DEPS, 'tlc2.TLC',
